@@ -261,3 +261,108 @@ step! { int;
         kani::cover!(!o.ok && (v as i64) < start as i64, "address below the bank's start rejected");
     }
 }
+
+// ---------------------------------------------------------------- C19-a position after an alignment, full machine-word range
+
+fn u64_of(x: &BigInt) -> u64 {
+    match x.maybe_into::<u64>() { Some(v) => v, None => { kani::assume(false); 0 } }
+}
+/// exact on non-negative 64-bit operands (result up to 2^65 through u128)
+pub fn st_add_wide(a: &BigInt, _r: &mut diagn::Report, _s: diagn::Span, b: &BigInt) -> Result<BigInt, ()> {
+    Ok(BigInt::new(u64_of(a) as u128 + u64_of(b) as u128, None))
+}
+/// exact for a 16-bit left operand and a right operand from the table of address units
+pub fn st_mul_unit(a: &BigInt, _r: &mut diagn::Report, _s: diagn::Span, b: &BigInt) -> Result<BigInt, ()> {
+    let x = u64_of(a);
+    kani::assume(x < (1 << 16));
+    let y = u64_of(b);
+    let p = match y { 1 => x, 8 => x * 8, 16 => x * 16, _ => { kani::assume(false); 0 } };
+    Ok(BigInt::new(p, None))
+}
+/// remainder by an alignment from the table {1, 8, 24, 64, 2^63}; dividend below 2^65
+pub fn st_mod_tab(a: &BigInt, _r: &mut diagn::Report, _s: diagn::Span, b: &BigInt) -> Result<BigInt, ()> {
+    let x: u128 = match a.maybe_into::<u128>() { Some(v) => v, None => { kani::assume(false); 0 } };
+    let y = u64_of(b);
+    let m = match y { 1 => 0, 8 => x % 8, 24 => x % 24, 64 => x % 64, 0x8000_0000_0000_0000 => x % 0x8000_0000_0000_0000u128, _ => { kani::assume(false); 0 } };
+    Ok(BigInt::new(m, None))
+}
+
+/// [#addr a, X, end] where X is `#align A` (LABEL = false) or a top-level label in a bank with `#labelalign A`
+fn align_position<const LABEL: bool>() {
+    reset_report_model();
+    let a: u64 = kani::any();
+    let start: u16 = kani::any();
+    let k: usize = kani::any(); kani::assume(k < 3);
+    let unit = [1usize, 8, 16][k];
+    let j: usize = kani::any(); kani::assume(j < 5);
+    let al = [1usize, 8, 24, 64, 1usize << 63][j];
+    let mut report = diagn::Report::new();
+    let mut decls = empty_decls();
+    let sym = decls.symbols.verif_push_decl("l", 0, util::SymbolContext::new_global());
+    let mut defs = asm::defs::init();
+    let mut b = bank(0, unit, start as i64, None, Some(0), false);
+    if LABEL { b.label_align = Some(al); }
+    defs.bankdefs.define(util::ItemRef::new(0), b);
+    defs.addr_directives.define(util::ItemRef::new(0), asm::AddrDirective { item_ref: util::ItemRef::new(0), address: BigInt::new(a, None) });
+    defs.align_directives.define(util::ItemRef::new(0), asm::AlignDirective { item_ref: util::ItemRef::new(0), align_size: al });
+    let lit = || expr::Expr::Literal(sp(), expr::Value::Bool(false));
+    let second = if LABEL {
+        asm::AstAny::Symbol(asm::AstSymbol { decl_span: sp(), hierarchy_level: 0, name: String::from("l"), kind: asm::AstSymbolKind::Label, no_emit: false, item_ref: Some(sym) })
+    } else {
+        asm::AstAny::DirectiveAlign(asm::AstDirectiveAlign { header_span: sp(), expr: lit(), item_ref: Some(util::ItemRef::new(0)) })
+    };
+    let ast = asm::AstTopLevel { nodes: vec![
+        asm::AstAny::DirectiveAddr(asm::AstDirectiveAddr { header_span: sp(), expr: lit(), item_ref: Some(util::ItemRef::new(0)) }),
+        second,
+        asm::AstAny::DirectiveAssert(asm::AstDirectiveAssert { header_span: sp(), condition_expr: lit() }),
+    ] };
+    let mut it = asm::ResolveIterator::new(&ast, &defs, false, false);
+    let c1 = it.next(&mut report, &decls, &defs);
+    assert!(matches!(c1, Ok(Some(_))));
+    std::mem::forget(c1);
+    // second step: position after #addr (and, for a label, after its alignment padding)
+    let before2 = msgs(&report);
+    let c2 = it.next(&mut report, &decls, &defs);
+    let p2 = match &c2 { Ok(Some(ctx)) => Some(ctx.bank_data.cur_position), _ => None };
+    assert!(p2.is_some() || (c2.is_err() && msgs(&report) > before2), "step neither succeeded nor was diagnosed");
+    std::mem::forget(c2);
+    let base = start as u128 * unit as u128;
+    let mut final_pos = p2;
+    if !LABEL {
+        if p2.is_some() {
+            let before3 = msgs(&report);
+            let c3 = it.next(&mut report, &decls, &defs);
+            final_pos = match &c3 { Ok(Some(ctx)) => Some(ctx.bank_data.cur_position), _ => None };
+            assert!(final_pos.is_some() || (c3.is_err() && msgs(&report) > before3), "alignment overflow neither exact nor diagnosed");
+            std::mem::forget(c3);
+        }
+    }
+    if let Some(p) = final_pos {
+        // whenever a position is delivered it is an aligned address at or after the #addr position, with minimal padding
+        let after_addr: u128 = if a >= start as u64 && ((a - start as u64) as u128 * unit as u128) < (1u128 << 64) { (a - start as u64) as u128 * unit as u128 } else { 0 };
+        assert!(p as u128 >= after_addr, "alignment moved backwards (wrap-around)");
+        assert!((base + p as u128) % (al as u128) == 0, "position after alignment is not aligned");
+        assert!((p as u128 - after_addr) < al as u128, "alignment padding is not minimal");
+    }
+    kani::cover!(final_pos.is_none() && a > (1u64 << 60), "padding beyond the machine word diagnosed");
+    kani::cover!(final_pos.is_some() && a > (1u64 << 60) && al == 64, "aligned position just below the machine word");
+    kani::cover!(final_pos.is_some() && a < 1000 && al == 24, "ordinary address");
+    std::mem::forget(it); std::mem::forget(decls); std::mem::forget(defs); std::mem::forget(report); std::mem::forget(ast);
+}
+
+modelled! {
+    #[kani::unwind(4)]
+    #[kani::stub(customasm::util::BigInt::checked_sub, st_sub_u64)]
+    #[kani::stub(customasm::util::BigInt::checked_add, st_add_wide)]
+    #[kani::stub(customasm::util::BigInt::checked_mul, st_mul_unit)]
+    #[kani::stub(customasm::util::BigInt::checked_mod, st_mod_tab)]
+    fn c19_a_align_position() { align_position::<false>() }
+}
+modelled! {
+    #[kani::unwind(4)]
+    #[kani::stub(customasm::util::BigInt::checked_sub, st_sub_u64)]
+    #[kani::stub(customasm::util::BigInt::checked_add, st_add_wide)]
+    #[kani::stub(customasm::util::BigInt::checked_mul, st_mul_unit)]
+    #[kani::stub(customasm::util::BigInt::checked_mod, st_mod_tab)]
+    fn c19_a_labelalign_position() { align_position::<true>() }
+}
